@@ -20,3 +20,26 @@ Print Assumptions C03_crash_atomic.
 Theorem C03_sync_phase_order : sync_order_ok = true /\ sync_order_ok2 = true.
 Proof. exact SrcFacts_proofs.sync_order_ok_true. Qed.
 Print Assumptions C03_sync_phase_order.
+
+(* ------------------------------------------------------------------------------------------ *)
+(* The recovery's own writes: the WAL redo (Wal.v mirrors bitbox/wal.rs and the redo loop of     *)
+(* bitbox::recover; it decodes the REAL blobs in the walimg engine).                            *)
+From Coq Require Import List NArith.
+From Nomt Require Import Result Wal Wal_proofs.
+
+(* whatever the decoder accepts can be redone on a hash table in which ANY subset of the
+   interrupted write-out's meta bytes and pages has already landed (selm / selp arbitrary): the
+   result is the completed table; and the redo is idempotent (recovery interrupted and repeated) *)
+Theorem C03_wal_redo_repairs : forall tag_of bytes s es h selm selp,
+  Wal.decode bytes = Ok (s, es) -> wf_ht h ->
+  ht_eq (Wal.redo tag_of (torn_table h (Wal.redo tag_of h es) selm selp) es) (Wal.redo tag_of h es) /\
+  ht_eq (Wal.redo tag_of (Wal.redo tag_of h es) es) (Wal.redo tag_of h es).
+Proof. exact Wal_proofs.recover_repairs. Qed.
+Print Assumptions C03_wal_redo_repairs.
+
+(* the same from any table reachable by interleaving log entries being redone with final pages
+   and meta bytes landing in any order *)
+Theorem C03_wal_redo_after_torn : forall tag_of es h h', shaped es -> wf_ht h -> torn tag_of es h h' ->
+  ht_eq (Wal.redo tag_of h' es) (Wal.redo tag_of h es).
+Proof. exact Wal_proofs.redo_after_torn. Qed.
+Print Assumptions C03_wal_redo_after_torn.
